@@ -327,3 +327,52 @@ fn c16_q_zero_lock_collections_drop_their_child_once() {
 	assert!(drops(5), "C16_every_value_dropped_exactly_once");
 	kani::cover!(true, "end");
 }}
+
+vharness! {
+#[kani::unwind(9)]
+fn c16_q_size4_over_references() {
+	let v: [u8; 4] = kani::any();
+	// size 4 array through a ref collection and boxed new_ref; the owner drops the values once
+	let arr = [MP::new(p(0, v[0])), MP::new(p(1, v[1])), MP::new(p(2, v[2])), MP::new(p(3, v[3]))];
+	{
+		let r = RefLockCollection::new(&arr);
+		let b = BoxedLockCollection::new_ref(&arr);
+		let key = ThreadKey::get().unwrap();
+		let mut g = r.lock(key);
+		g[3].val = 44;
+		drop(g);
+		drop(r);
+		drop(b);
+		assert!(no_drops(), "C16_collections_over_references_drop_nothing");
+	}
+	let [a0, _a1, _a2, a3] = arr;
+	assert!(a3.into_inner().val == 44 && a0.into_inner().val == v[0], "C16_into_inner_reflects_last_write_under_lock");
+	assert!(unsafe { DROPS[0] == 1 && DROPS[3] == 1 && DROPS[1] == 0 }, "C16_into_inner_moves_the_value_out");
+	drop(_a1);
+	drop(_a2);
+	assert!(drops(4), "C16_every_value_dropped_exactly_once");
+	kani::cover!(true, "end");
+}}
+
+vharness! {
+#[kani::unwind(9)]
+fn c16_q_nested_owned_and_retry_inside_boxed() {
+	// nested: boxed( ( owned([MP;2]), retry(vec![RP]) ) ) -> into_child / get_mut / into_inner at every level
+	// (no acquisition through the boxed collection here: fact 15)
+	let c = BoxedLockCollection::new((
+		OwnedLockCollection::new([MP::new(p(0, 1)), MP::new(p(1, 2))]),
+		RetryingLockCollection::new(vec![RP::new(p(2, 3))]),
+	));
+	assert!(no_drops(), "C16_constructor_drops_nothing");
+	let (mut o, mut r) = c.into_child();
+	assert!(no_drops(), "C16_into_child_drops_nothing");
+	o.get_mut()[1].val = 9;
+	r.child_mut()[0].get_mut().val = 8;
+	let oi = o.into_inner();
+	let ri = r.into_inner();
+	assert!(oi[0].val == 1 && oi[1].val == 9 && oi[0].id == 0 && ri[0].val == 8 && ri.len() == 1, "C16_nested_into_inner_returns_values_at_declared_positions");
+	drop(oi);
+	drop(ri);
+	assert!(drops(3), "C16_every_value_dropped_exactly_once");
+	kani::cover!(true, "end");
+}}
